@@ -5,6 +5,7 @@ go 1.13
 require (
 	github.com/ElrondNetwork/elrond-go v1.1.59-0.20210526130950-2a93e2e11c39
 	github.com/ElrondNetwork/elrond-go-logger v1.0.4
+	github.com/ElrondNetwork/elrond-vm-common v1.0.0
 )
 
 replace github.com/ElrondNetwork/elrond-go => /repo
